@@ -119,7 +119,7 @@ def rows_generator(method, n, order, rows):
     return cls, dict(num_steps=max(sm.rule_length(method, n, order) + rows - 1, 1), check_num_steps=False)
 
 
-def build_derivative(fun, method, n, order, gen):
+def build_derivative(fun, method, n, order, gen, positional=False):
     import numdifftools as nd
     from numdifftools.step_generators import MinStepGenerator, MaxStepGenerator
     gkind, gopts = gen
@@ -133,6 +133,10 @@ def build_derivative(fun, method, n, order, gen):
     elif gkind == 'rows':
         cls, opts = rows_generator(method, n, order, gopts['rows'])
         kw['step'] = (MaxStepGenerator if cls == 'Max' else MinStepGenerator)(**opts)
+    if positional:
+        # the documented positional order: Derivative(fun, step, method, order, n, **options)
+        rest = {k: v for k, v in kw.items() if k not in ('step', 'method', 'order', 'n')}
+        return nd.Derivative(fun, kw.get('step'), method, order, n, **rest)
     return nd.Derivative(fun, **kw)
 
 
@@ -162,13 +166,14 @@ def analyse_points(prog, points, cplx=None):
 def run_config(fun, cfg, gen, pi, direct_fx, want_steps=False):
     """Execute one configuration at one point.  Returns dict with observed and oracle quantities."""
     import numdifftools.finite_difference as fdm
-    method, n, order = cfg
+    method, n, order = cfg[:3]
+    positional = len(cfg) > 3 and cfg[3] == 'positional'
     fw.fresh_library_state()
     res = dict(status='ok', x=pi.x)
     try:
         with warnings.catch_warnings():
             warnings.simplefilter('ignore')
-            d = build_derivative(fun, method, n, order, gen)
+            d = build_derivative(fun, method, n, order, gen, positional)
             val, info = d(pi.x)
             res['val'] = val
             res['info'] = info
